@@ -162,5 +162,27 @@ def run(ctx):
             ctx.ob("unstake|taken-amount-is-the-redemption-value", o == {"call:" + V + "::calculate_redemption_value"}, f"stake-vault take amount originates from {sorted(x.split('::')[-1] for x in o)}", b.loc(take[0][0]))
             ctx.ob("unstake|ratio-read-before-burn", calc[0][0] not in b.reach((burn[0][0],)) and burn[0][0] in b.reach((calc[0][0],)),
                    "the redemption value is calculated before the stake units are burnt, never after", b.loc(calc[0][0]))
+    ctx.rule("T2: calculate_stake_unit_amount mints 1:1 (returns the staked XRD amount unchanged) only when the stake *vault* is empty "
+             "(total_stake_xrd_amount.is_zero()); with XRD in the pool — e.g. an emission paid after every unit was burnt — units are always "
+             "minted through the supply/xrd ratio, so a newcomer cannot acquire the existing pool 1:1")
+    n = V + "::calculate_stake_unit_amount"
+    if ctx.anchor(n):
+        b = ctx.body(n)
+        one_to_one = []
+        for i in range(b.n):
+            for st in b.stmts(i):
+                if st["k"] == "=" and st["p"] == [0] and st["rv"]["k"] == "agg" and st["rv"].get("var") == "Ok" and st["rv"]["ops"]:
+                    if origin_names(b, st["rv"]["ops"][0]) == {"param:1"}:
+                        one_to_one.append(i)
+
+        def xrd_pool_empty(body):
+            e, bl = [], []
+            for bb, tru, fal, si in body.call_bool_guards(r"::is_zero$"):
+                for a in si["atoms"]:
+                    if a.kind == "call" and a.what.endswith("::is_zero") and origin_names(body, a.extra["args"][0]) == {"param:2"}:
+                        e.append((bb, tru)); bl.append(bb)
+            return e, bl
+        check_guarded(ctx, "stake-units|one-to-one-only-for-an-empty-xrd-pool", b, one_to_one,
+                      [G_custom(xrd_pool_empty, "total_stake_xrd_amount.is_zero() == true")], "1:1 mint (Ok(xrd_amount))", min_targets=1)
     ctx.assume("proportionality of minted units / redeemed XRD, emission and reward bounds per epoch are arithmetic over histories and NOT decided; "
                "the stake-sorted index order itself (u16 bucket prefix) is value-level, only the final sort-descending + take(max) shape is decided")
